@@ -449,6 +449,39 @@ func (ex *Exec) specCall(st *State, e *ast.CallExpr) []*Val {
 			f := ex.materialize(ex.expr(st, e.Args[0]), tString)
 			a := ex.expr(st, e.Args[1])
 			return one(&Val{T: tString, Term: ex.sprintfModel(st, f.Term, a.Term)})
+		case "onlyFreshWritten":
+			// frame: every heap cell that existed at entry still has its entry value
+			ov := ex.oldView(st)
+			a0 := ex.alloc(ov)
+			var cs []*Term
+			var names []string
+			for k := range st.heaps {
+				names = append(names, k)
+			}
+			sort.Strings(names)
+			r := mk("r?", SInt)
+			for _, k := range names {
+				if !(strings.HasPrefix(k, "H$") || strings.HasPrefix(k, "Box$") || strings.HasPrefix(k, "Mem$")) {
+					continue
+				}
+				now := st.heaps[k]
+				old, ok := ov.heaps[k]
+				if !ok || old == now {
+					continue
+				}
+				cs = append(cs, forall([]*Term{r}, implies(and(gt(r, intLit(0)), lt(r, a0)), eq(sel(now, r), sel(old, r)))))
+			}
+			var gnames []string
+			for k := range ex.globalWrites {
+				gnames = append(gnames, k)
+			}
+			sort.Strings(gnames)
+			for _, k := range gnames {
+				if old, ok := ov.heaps[k]; ok && st.heaps[k] != old {
+					cs = append(cs, eq(st.heaps[k], old))
+				}
+			}
+			return one(&Val{T: tBool, Term: and(cs...)})
 		case "boxes":
 			// boxes(x, v): interface value x holds exactly the value v
 			x := ex.expr(st, e.Args[0])
@@ -647,6 +680,8 @@ func (ex *Exec) quantifier(st *State, kind string, e *ast.CallExpr) *Val {
 	}
 	n := len(st.pc)
 	var body *Term
+	ex.quantDepth++
+	defer func() { ex.quantDepth-- }()
 	if len(args) == 2 {
 		c := ex.materialize(ex.expr(st, args[0]), tBool)
 		b := ex.materialize(ex.expr(st, args[1]), tBool)
